@@ -986,3 +986,49 @@ func c03R6R7(p *Prog, r *Report) {
 	r.Check(len(bad) == 0, "C03.R7", "after trimming, the queue is empty or starts at a packet not older than the common first packet", pos, "every return follows a test that established it for the current queue",
 		"a return is reachable where the queue was last found neither empty nor starting at or after the common sequence number (for example one stale packet is left when the whole queue predates it): that packet is demultiplexed as if aligned with the other groups, channels are shifted against each other by a packet")
 }
+
+// naturalLoopContains: x lies in the natural loop whose header is d (x reaches a back-edge
+// predecessor of d without passing through d).
+func naturalLoopContains(d, x *ssa.BasicBlock) bool {
+	hasBack := false
+	for _, pr := range d.Preds {
+		if d.Dominates(pr) {
+			hasBack = true
+		}
+	}
+	if !hasBack {
+		return false
+	}
+	if x == d {
+		return true
+	}
+	if !d.Dominates(x) {
+		return false
+	}
+	for _, pr := range d.Preds {
+		if !d.Dominates(pr) {
+			continue
+		}
+		seen := map[*ssa.BasicBlock]bool{d: true}
+		var walk func(y *ssa.BasicBlock) bool
+		walk = func(y *ssa.BasicBlock) bool {
+			if y == pr {
+				return true
+			}
+			if seen[y] {
+				return false
+			}
+			seen[y] = true
+			for _, sc := range y.Succs {
+				if walk(sc) {
+					return true
+				}
+			}
+			return false
+		}
+		if walk(x) {
+			return true
+		}
+	}
+	return false
+}
